@@ -1640,7 +1640,7 @@ static inline size_t gp_replace_all11(GPString* hay, GPStrIn ndl, GPStrIn repl)
     return gp_str_replace_all(hay, ndl.data, ndl.length, repl.data, repl.length);
 }
 GP_NONNULL_ARGS_AND_RETURN
-GPString gp_reaplce_all_new(const void* alc, GPStrIn hay, GPStrIn ndl, GPStrIn repl);
+GPString gp_replace_all_new(const void* alc, GPStrIn hay, GPStrIn ndl, GPStrIn repl);
 #define GP_REPLACE_ALL11_3(HAY, NDL, REPL) gp_replace_all11(HAY, GP_STR_IN11(NDL), GP_STR_IN11(REPL))
 #define GP_REPLACE_ALL11_4(ALC, HAY, NDL, REPL) gp_replace_all_new( \
     GP_ALC(ALC), GP_STR_IN11(HAY), GP_STR_IN11(NDL), GP_STR_IN11(REPL))
